@@ -21,6 +21,9 @@ import (
 
 var tmplArgRe = regexp.MustCompile(`@[A-Za-z0-9_]+`)
 
+// wildcardMark stands in the expected text for a part the driver does not predict.
+const wildcardMark = "/*VERIF-ANY*/"
+
 type tok struct {
 	T token.Token
 	L string
@@ -134,10 +137,9 @@ func (x *Exec) checkFile(rec *StepRecord, pi int, g *proto.GenScript, o genOutco
 	if out, err := gformat.Source(data, gformat.Options{LangVersion: "go" + goVer, ModulePath: modPath}); err != nil || !bytes.Equal(out, data) {
 		x.violate("C01", "F6", "not-gofumpt-fixed-point", rel, nil)
 	}
-	// F4: the declarations rendered, in order, altered only by formatting
-	if o.HasValue {
-		return
-	}
+	// F4: the declarations rendered, in order, altered only by formatting. Parts whose text the driver does not
+	// predict (dumped values, tables, comments computed from the universe) stand for "any tokens": what is
+	// rendered before, between and after them must still be there, in order.
 	imports := map[string]string{}
 	bodyFrom := fset.Position(f.Name.End()).Offset
 	for _, d := range f.Decls {
@@ -174,6 +176,8 @@ func (x *Exec) checkFile(rec *StepRecord, pi int, g *proto.GenScript, o genOutco
 	}
 	for _, part := range o.Parts {
 		switch {
+		case part.Value != "" || part.Results || part.Bulk > 0 || part.Locate != "" || part.Names:
+			want.WriteString(" " + wildcardMark + " ")
 		case part.Tmpl != "":
 			text, ok := part.Tmpl, true
 			text = tmplArgRe.ReplaceAllStringFunc(text, func(ph string) string {
@@ -185,6 +189,11 @@ func (x *Exec) checkFile(rec *StepRecord, pi int, g *proto.GenScript, o genOutco
 				return
 			}
 			want.WriteString(strings.TrimLeft(text, "\n")) // snippet.T drops leading newlines of its format
+		case part.Octal:
+			// (integers are compared by value: whether the literal is spelled 0644 or 0o644 is F6's business)
+			want.WriteString("\nconst " + part.Text + " = 0644\n")
+		case part.FieldDocs:
+			// comment lines "// FIELD ..." whose text the driver does not predict: left out on both sides (below)
 		case part.DocRef != "":
 			want.WriteString("\n// DOC " + strings.Join(m.DocLinesOf(part.DocRef), " | ") + "\n")
 		case part.Ref != "":
@@ -202,6 +211,67 @@ func (x *Exec) checkFile(rec *StepRecord, pi int, g *proto.GenScript, o genOutco
 		return // the expectation itself is not scannable: a harness pool defect caught by the self-test
 	}
 	gt, _ := tokens(data, bodyFrom)
+	kept := gt[:0]
+	for _, t := range gt {
+		if t.T == token.COMMENT && strings.HasPrefix(t.L, "// FIELD ") {
+			continue
+		}
+		kept = append(kept, t)
+	}
+	gt = kept
+	if o.HasValue {
+		// segments between wildcards: the first is a prefix, the last a suffix, the others occur in order
+		var segs [][]tok
+		cur := []tok{}
+		for _, t := range wt {
+			if t.T == token.COMMENT && t.L == wildcardMark {
+				segs = append(segs, cur)
+				cur = []tok{}
+				continue
+			}
+			cur = append(cur, t)
+		}
+		segs = append(segs, cur)
+		eq := func(a, b []tok) bool {
+			for i := range a {
+				if a[i] != b[i] {
+					return false
+				}
+			}
+			return true
+		}
+		pos := 0
+		for k, seg := range segs {
+			switch {
+			case k == 0:
+				if len(gt) < len(seg) || !eq(seg, gt[:len(seg)]) {
+					x.violate("C01", "F4", "rendered-declarations-altered", fmt.Sprintf("%s: the file does not begin with the %d tokens rendered before the first computed part", rel, len(seg)), nil)
+					return
+				}
+				pos = len(seg)
+			case k == len(segs)-1:
+				if len(gt)-len(seg) < pos || !eq(seg, gt[len(gt)-len(seg):]) {
+					x.violate("C01", "F4", "rendered-declarations-altered", fmt.Sprintf("%s: the file does not end with the %d tokens rendered after the last computed part", rel, len(seg)), nil)
+					return
+				}
+			default:
+				found := -1
+				for at := pos; at+len(seg) <= len(gt); at++ {
+					if eq(seg, gt[at:at+len(seg)]) {
+						found = at
+						break
+					}
+				}
+				if found < 0 {
+					x.violate("C01", "F4", "rendered-declarations-altered", fmt.Sprintf("%s: %d tokens rendered between two computed parts are not in the file (in order)", rel, len(seg)), nil)
+					return
+				}
+				pos = found + len(seg)
+			}
+		}
+		x.Env.Stats.Add("probe/f4-with-computed-parts", 1)
+		return
+	}
 	n := min(len(wt), len(gt))
 	for i := 0; i < n; i++ {
 		if wt[i] != gt[i] {
